@@ -57,6 +57,10 @@ def run_one(patch, tests, seeds, tier, props=None):
         if os.path.exists(demo) and tests:
             os.makedirs(os.path.join(wt, '_out'), exist_ok=True)
             shutil.copy(demo, os.path.join(wt, '_out', '_demo.py'))
+            for f in os.listdir(os.path.dirname(patch)):
+                if f.endswith('.py') and f != 'demo.py':
+                    shutil.copy(os.path.join(os.path.dirname(patch), f),
+                                os.path.join(wt, '_out', f))
             r = sh(f'cd {wt} && /venv/bin/python -W ignore _out/_demo.py',
                    timeout=900)
             out['demo_clean_exit'] = r.returncode
